@@ -64,6 +64,7 @@ def run(ctx):
     ctx.assumptions += ["a date-less result with the minute absent denotes minute 0 (8 o'clock = 08:00)",
                         "four-digit HHMM without 'uhr/h' only for minutes that are multiples of 5 and not year-like (documented heuristic)"]
     ctx.mc("MC_Denote", "MC_Denote_C06_q.cfg" if ctx.quick else "MC_Denote_C06_t.cfg", timeout=3000)
+    common.random_rows_stage(ctx, "C06", post=True)
     pods = [p for p in qa.PODS if p in qa.T.pod_hours]
     allpods = sorted(qa.T.pod_hours)        # every key of the table, modifiers included ("earlyafternoon" starts at 11 but is pm)
     cases = []
